@@ -163,7 +163,9 @@ def run(ctx):
     # "counts and default differ exactly by the per-row normalisation": the same records in both modes (the sizing pass
     # and the iterator agree on what a record is), the divisor is the number of windows binned, one delimiter per row
     from . import c06
-    c06.end_rule(dep(ctx, "C15", "C06"))
+    c06.reader_deps(ctx, "C15")     # (file input == stdin input, --counts == default up to normalisation: the decoder is
+    #                                  chosen the same way — suffix table for a path, first byte for a stream — and
+    #                                  delivers the same records; includes the end-of-input rule)
     c08.bin_rule(dep(ctx, "C15", "C08"))
     if fcv is not None:
         d8_ = dep(ctx, "C15", "C08")
